@@ -100,6 +100,38 @@ def cases(rng, tier):
                 c = codec(0, width, order)
                 yield Case(program=render(call(c, str_lit(s))), tag='utf-enc', monitor='c16_expect', data=O(fmt_bytes(b)))
                 yield Case(program=render(call(c, bytes_lit(b))), tag='utf-dec', monitor='c16_expect', data=O("'" + s + "'"))
+    # one converter *value* used several times (bound to a parameter: λc. [c(x1), c(x2), c(x3), c(x4)]; mapped over a list): every
+    # use is independent of the earlier ones (seeded change S16h: a cached incremental encoder wrote the BOM only once)
+    def reuse(c, items):      # items: (argument expression, printed result)
+        body = bi('ㅁㄹ', *[call(gen.arg(0), e) for e, _ in items])
+        return render(call(gen.fundef(body), c)), "[" + ", ".join(p for _, p in items) + "]"
+    for _ in range(60 if tier == 'quick' else 1500):
+        width = rng.choice((1, 2, 4)); order = None if width == 1 else rng.choice((None, None, True, False))
+        c = codec(0, width, order)
+        items = []
+        for _k in range(rng.randint(2, 4)):
+            s_ = rng.choice(samples)
+            if rng.random() < 0.7:
+                items.append((str_lit(s_), fmt_bytes(utf(width, order, s_))))
+            else:
+                items.append((bytes_lit(utf(width, order, s_)), "'" + s_ + "'"))
+        prog, want = reuse(c, items)
+        yield Case(program=prog, tag='utf-reuse', monitor='c16_expect', data=O(want))
+        strs = [it for it in items if it[1].startswith("b'")]
+        if len(strs) >= 2:
+            yield Case(program=render(bi('ㅁㄷ', bi('ㅁㄹ', *[e for e, _ in strs]), c)), tag='utf-reuse-map', monitor='c16_expect',
+                       data=O("[" + ", ".join(p for _, p in strs) + "]"))
+    for _ in range(30 if tier == 'quick' else 600):
+        w = rng.choice(widths); order = rng.choice((None, True, False)); signed = rng.random() < 0.5
+        lo, hi = (-(1 << (8 * w - 1)), (1 << (8 * w - 1)) - 1) if signed else (0, (1 << (8 * w)) - 1)
+        c = codec(2 if signed else 1, w, order)
+        items = []
+        for _k in range(rng.randint(2, 4)):
+            n_ = rng.choice([lo, hi, 0, 1, rng.randint(lo, hi)])
+            b_ = twos(n_, w, bool(order), signed)
+            items.append((lit(n_), fmt_bytes(b_)) if rng.random() < 0.6 else (bytes_lit(b_), str(n_)))
+        prog, want = reuse(c, items)
+        yield Case(program=prog, tag='int-reuse', monitor='c16_expect', data=O(want))
     # invalid byte sequences are rejected
     bad = {1: [b"\xff", b"\xc0\x80", b"\xed\xa0\x80", b"\xf4\x90\x80\x80", b"\xe2\x82", b"\x80"],
            2: [b"\x00", b"\x00\xd8", b"\x00\xdc\x00\xd8", b"\x00\xd8\x41\x00"],
